@@ -982,6 +982,48 @@ def unit_dstu(ctx):
 # pfok
 # =====================================================================================
 
+def unit_forgery_scan(ctx):
+    """bign96Verify against many signatures whose s1 was replaced: a verifier that compares only part of the 80-bit hash
+    half refuses one alteration almost surely but accepts about one in 2^(8k) of them"""
+    lib, rng = ctx.lib, ctx.rng
+    M = B96(lib)
+    q, oid, n = M.q, B96_OID, ctx.params["n"]
+    pp, poid = lib.mk(M.raw), lib.mk(oid)
+    d = rng.randrange(1, q).to_bytes(24, "little")
+    pub = lib.alloc(48)
+    if lib.bign96PubkeyCalc(pub, pp, lib.mk(d)) != 0:
+        raise Harness("bign96PubkeyCalc")
+    h = rng.randbytes(24)
+    ph = lib.mk(h)
+    sig = lib.alloc(34)
+    if lib.bign96Sign2(sig, pp, poid, len(oid), ph, lib.mk(d), 0, 0) != 0:
+        raise Harness("bign96Sign2")
+    sg = lib.rd(sig, 34)
+    if lib.bign96Verify(pp, poid, len(oid), ph, sig, pub) != 0:
+        raise Harness("bign96Verify rejects the genuine signature")
+    s1 = int.from_bytes(sg[10:], "little")
+    start = rng.randrange(1, q)
+    if not ctx.case(["bign96Verify", n, start], "bign96:verify:forgery-scan"):
+        return
+    accepted = []
+    for i in range(n):
+        v = (start + i) % q
+        if v == s1:
+            continue
+        cand = sg[:10] + v.to_bytes(24, "little")
+        p = lib.mk(cand)
+        if lib.bign96Verify(pp, poid, len(oid), ph, p, pub) == 0:
+            accepted.append(cand)
+        lib.free_one(p)
+    ctx.count(n - 1, "bign96:verify:forgery-scan")
+    ctx.digest(len(accepted))
+    if accepted:
+        ctx.violation("bign96Verify:accepts-invalid:one-of-many-altered-signatures",
+                      "bign96Verify accepted %d of %d signatures whose s1 was replaced" % (len(accepted), n),
+                      {"hash": h, "pubkey": lib.rd(pub, 48), "genuine": sg, "accepted": accepted[:3]})
+    lib.release()
+
+
 def unit_pfok(ctx):
     lib, rng = ctx.lib, ctx.rng
     bad = PF.selftest(lib)
@@ -1148,6 +1190,8 @@ def jobs(tier, scale=1.0):
                                                             "nmodel": 2 if q else 6, "nbase": 1}})
     for ch in range(2 if q else 6):
         js.append({"unit": "c16:unit_bign96", "params": {"chunk": ch, "nflip": sc(120) if q else None}})
+    for ch in range(max(1, int(round((8 if q else 16) * min(1.0, scale))))):
+        js.append({"unit": "c16:unit_forgery_scan", "params": {"chunk": ch, "n": sc(30000 if q else 120000)}})
     for name in PF.NAMES:
         for ch in range(1 if q else 3):
             js.append({"unit": "c16:unit_pfok", "params": {"name": name, "chunk": ch, "nagree": sc(6 if q else 18), "nkeys": 1 if q else 2}})
@@ -1171,7 +1215,7 @@ REQUIRED = ("g12s:keypair", "g12s:sign", "g12s:verify:sig-bit", "g12s:verify:pub
 
 
 def main(run):
-    js = [dict(j, cfg="asan64") for j in jobs(run.tier)]
+    js = [dict(j, cfg="rel64" if j["unit"].endswith("unit_forgery_scan") else "asan64") for j in jobs(run.tier)]
     if run.tier != "quick":
         js += [dict(j, cfg="asan32") for j in jobs("quick", 0.5)]
     # longest first
